@@ -66,6 +66,8 @@ EscRejects == /\ ~EscWellFormed(<<<<1, 55357>>>>, TRUE)                    \* lo
               /\ ~EscWellFormed(<<<<1, 56489>>, <<1, 55357>>>>, TRUE)      \* wrong order
               /\ ~EscWellFormed(<<<<1, 1114111>>>>, TRUE)                  \* astral left unpaired
               /\ ~EscWellFormed(<<<<1, 55357>>, <<1, 56489>>>>, FALSE)     \* pair although not requested
+              /\ ~EscWellFormed(<<<<2, 160>>, <<0, 92>>, <<0, 117>>, <<0, 48>>, <<0, 48>>, <<0, 97>>, <<0, 48>>>>, FALSE) \* \u00a0
+              /\ EscWellFormed(<<<<2, 10>>, <<0, 92>>, <<0, 120>>, <<0, 48>>, <<0, 97>>>>, FALSE)       \* \x0a is ASCII
               /\ ~EscWellFormed(<<<<0, 233>>>>, FALSE)                     \* raw non-ASCII
 
 Sgr == <<27, 91, 49, 59, 51, 50, 109>>
